@@ -95,8 +95,8 @@ def rules(rep, m):
                     if x["kind"] == "BinaryOperator" and x.get("opcode") == "=" and \
                             strip(kids(x)[0], casts=True).get("name") == "is_recording":
                         order.append(("flag", int_value(kids(x)[1])))
-                    if x["kind"] == "CallExpr" and callee_ref(x) == "record_sample":
-                        order.append(("sample", None))
+                    if x["kind"] == "CallExpr" and callee_ref(x) in ("record_sample", "cmb_timeseries_add"):
+                        order.append(("sample", None))         # through the sampling routine or directly into the history
             r3.instance("%s: %s" % (f.name, order))
             want = [("flag", 1), ("sample", None)] if start else [("sample", None), ("flag", 0)]
             if order != want:
@@ -133,11 +133,11 @@ def rules(rep, m):
             r4.ok()
     # previous weight only when there is a previous sample
     guarded = False
-    for x in walk(ta.body):
-        if x["kind"] == "IfStmt" and re.fullmatch(r"\(%s > 0\)" % re.escape(newi), cx.canon(kids(x)[0])):
-            if any(cx.canon(l) == "%s->wa[(%s - 1)]" % (tsp, newi) for l, r, k, n in
-                   [(kids(y)[0], kids(y)[1], "=", y) for y in walk(kids(x)[1])
-                    if y["kind"] == "BinaryOperator" and y.get("opcode") == "="]):
+    posre = [r"\(%s > 0\)" % re.escape(newi), r"\(%s != 0\)" % re.escape(newi), r"\(%s >= 1\)" % re.escape(newi),
+             r"!\(%s == 0\)" % re.escape(newi), r"!\(%s < 1\)" % re.escape(newi), r"!\(%s <= 0\)" % re.escape(newi)]
+    for l, r, k, n in inv.stores(ta):
+        if cx.canon(l) == "%s->wa[(%s - 1)]" % (tsp, newi):
+            if any(re.fullmatch(pt, cd) for cd in inv.dominating_conditions(cx, ta, n) for pt in posre):
                 guarded = True
     if not guarded:
         rep.finding(r4, ta.name, "prev-guard", "the previous sample's weight is not updated under 'there is a "
@@ -172,22 +172,46 @@ def rules(rep, m):
     fors = [x for x in walk(sm.body) if x["kind"] == "ForStmt"]
     if len(adds) != 1 or len(fors) != 1:
         raise AnalysisBroken("cmb_timeseries_summarize: expected one loop with one cmb_wtdsummary_add")
-    a = [scx.canon(x) for x in kids(adds[0])[1:]]
-    fch = kids(fors[0])
-    bound = scx.canon(fch[2])
-    r4.instance("summarize: add(%s) while %s" % (", ".join(a), bound))
+    # induction variables of the loop: the pair fed is (xa[it], wa[it]) for it = 0 .. count - 2, whether the loop indexes the
+    # arrays or walks two pointers with a separate counter
+    ivars, guard = inv.induction_vars(scx, sm, fors[0])
+    trips = inv.trip_count(ivars, guard)
     p0 = sm.params[0]["name"]
-    okv = re.fullmatch(r"%s->xa\[(\w+)\]" % p0, a[1]) and re.fullmatch(r"%s->wa\[(\w+)\]" % p0, a[2]) \
-        and a[1].split("[")[1] == a[2].split("[")[1]
+
+    def element(argnode):
+        """(array canon, offset as 'it' multiple) of the value passed: A[i] with i = 0 + it, or *p with p = A + it"""
+        n_ = scx.resolve(argnode)
+        if n_["kind"] == "ArraySubscriptExpr":
+            i_ = strip(kids(n_)[1], casts=True)
+            if i_["kind"] == "DeclRefExpr" and ivars.get(i_["ref"]["name"]) == ("0", 1):
+                return scx.canon(kids(n_)[0]), "it"
+        if n_["kind"] == "UnaryOperator" and n_.get("opcode") == "*":
+            p_ = strip(kids(n_)[0], casts=True)
+            if p_["kind"] == "DeclRefExpr" and p_["ref"]["name"] in ivars and ivars[p_["ref"]["name"]][1] == 1:
+                # the pointer must be dereferenced before it is advanced in the iteration
+                return ivars[p_["ref"]["name"]][0], "it"
+        return scx.canon(argnode), None
+    e1, e2 = element(kids(adds[0])[2]), element(kids(adds[0])[3])
+    r4.instance("summarize: add(%s[%s], %s[%s]) for %s iterations" % (e1[0], e1[1], e2[0], e2[1], trips))
+    okv = e1[1] == "it" and e2[1] == "it" and re.fullmatch(r"%s->xa|\S+->xa" % p0, e1[0]) and re.fullmatch(r"%s->wa" % p0, e2[0])
+    # a pointer that is advanced before it is dereferenced in the same iteration would be off by one
+    for y in walk(kids(fors[0])[-1]):
+        if y is adds[0]:
+            break
+        if y["kind"] == "UnaryOperator" and y.get("opcode") in ("++", "--"):
+            t_ = strip(kids(y)[0], casts=True)
+            if t_["kind"] == "DeclRefExpr" and t_["ref"]["name"] in ivars and any(
+                    z["kind"] == "DeclRefExpr" and z["ref"]["name"] == t_["ref"]["name"] for z in walk(adds[0])):
+                okv = False
     if not okv:
-        rep.finding(r4, sm.name, "summarize:pairs", "summary is fed (%s, %s), not (xa[i], wa[i])" % (a[1], a[2]),
-                    where=m.rel(loc(adds[0])))
+        rep.finding(r4, sm.name, "summarize:pairs", "summary is fed (%s[%s], %s[%s]), not (xa[i], wa[i]) for the same i" %
+                    (e1[0], e1[1], e2[0], e2[1]), where=m.rel(loc(adds[0])))
         r4.fail()
     else:
         r4.ok()
-    if not re.fullmatch(r"\(\w+ < \(%s->count - 1\)\)" % p0, bound):
-        rep.finding(r4, sm.name, "summarize:range", "summary loop runs while %s; expected i < count - 1 (the last "
-                    "sample has no duration yet)" % bound, where=m.rel(loc(fors[0])))
+    if trips is None or not re.fullmatch(r"\(%s->count - 1\)|\(\S+->count - 1\)" % p0, trips):
+        rep.finding(r4, sm.name, "summarize:range", "summary loop runs %s times; expected count - 1 (the last "
+                    "sample has no duration yet)" % (trips if trips else "an undetermined number of"), where=m.rel(loc(fors[0])))
         r4.fail()
     else:
         r4.ok()
